@@ -1,0 +1,57 @@
+//go:build verif
+
+package datastore
+
+import (
+	"context"
+	"sync"
+
+	sdcpb "github.com/sdcio/sdc-protos/sdcpb"
+
+	"github.com/sdcio/data-server/pkg/cache"
+	"github.com/sdcio/data-server/pkg/config"
+	schemaClient "github.com/sdcio/data-server/pkg/datastore/clients/schema"
+	"github.com/sdcio/data-server/pkg/datastore/target"
+	"github.com/sdcio/data-server/pkg/datastore/types"
+	"github.com/sdcio/data-server/pkg/schema"
+)
+
+// NewWithTarget creates a datastore like New() does, but uses the given target as SBI
+// and does not start any goroutine.
+func NewWithTarget(ctx context.Context, c *config.DatastoreConfig, sc schema.Client, cc cache.Client, t target.Target) *Datastore {
+	ds := &Datastore{
+		config:                   c,
+		schemaClient:             schemaClient.NewSchemaClientBound(c.Schema.GetSchema(), sc),
+		cacheClient:              cc,
+		m:                        &sync.RWMutex{},
+		md:                       &sync.RWMutex{},
+		dmutex:                   &sync.Mutex{},
+		deviationClients:         make(map[string]sdcpb.DataServer_WatchDeviationsServer),
+		currentIntentsDeviations: make(map[string][]*sdcpb.WatchDeviationResponse),
+		sbi:                      t,
+	}
+	ds.transactionManager = types.NewTransactionManager(NewDatastoreRollbackAdapter(ds))
+	if c.Sync != nil {
+		ds.synCh = make(chan *target.SyncUpdate, c.Sync.Buffer)
+	}
+	ctx, cancel := context.WithCancel(ctx)
+	ds.cfn = cancel
+	ds.initCache(ctx)
+	return ds
+}
+
+// VerifDeviationCycle runs a single deviation calculation cycle
+func (d *Datastore) VerifDeviationCycle(ctx context.Context, dm map[string]sdcpb.DataServer_WatchDeviationsServer) {
+	d.runDeviationUpdate(ctx, dm)
+}
+
+// VerifOpenTransaction returns the id of the registered transaction ("" if none) and
+// whether its rollback timer is armed.
+func (d *Datastore) VerifOpenTransaction() (string, bool) {
+	return d.transactionManager.VerifOpenTransaction()
+}
+
+// VerifSyncCh returns the channel the Sync loop reads from.
+func (d *Datastore) VerifSyncCh() chan *target.SyncUpdate {
+	return d.synCh
+}
